@@ -1,13 +1,19 @@
 """C07 - reindexing moves data together with its labels."""
-import copy, itertools
+import copy, itertools, bisect
 from fractions import Fraction
 import numpy as np
 import core, gen
 from core import da, Axis
 from .base import Prop
 from . import c01
+from .c06 import lab_key, build_arr, f32_exact
 
-FILLS = {"nan": (np.nan, "f"), "int": (7, "i"), "float": (2.5, "f")}
+# fill value and the dtype kind NumPy gives it (np.asarray(fill).dtype.kind)
+FILLS = {"nan": (np.nan, "f"), "int": (7, "i"), "float": (2.5, "f"),
+         "neg": (-1, "i"), "zero": (0, "i"), "inf": (float("inf"), "f"), "big": (2 ** 40 + 1, "i"),
+         "np_f32": (np.float32(0.5), "f"), "np_i16": (np.int16(-3), "i"),
+         "bool": (True, "b"), "str": ("missing", "U"), "none": (None, "O")}
+FILL_PICK = ["nan"] * 8 + ["int"] * 3 + ["float"] * 3 + ["neg", "zero", "inf", "big", "np_f32", "np_i16", "bool", "str", "none"]
 
 
 def new_labels(rng, ax, how=None):
@@ -47,10 +53,17 @@ class C07(Prop):
                 "neighbour_left_present", "neighbour_right_present_next", "neighbour_right_present_last", "neighbour_absent_side_irrelevant", "neighbour_below", "neighbour_beyond",
                 "reindex_like_axes", "reindex_like_spec", "reindex_like_method_spec", "reindex_like_vkind", "reindex_reindex_sub", "reindex_kind"]
     rule = ("arrays of rank 1-3 (sizes 1-4, a share with an empty axis), any axis by name or position, labels int/"
-            "float/str stored inc/dec/shuffled; new label sequences subset/superset/disjoint/permuted/repeated/"
-            "empty/same/mixed given as list, ndarray or Axis; fills nan/int/float; raise_error; method None/left/"
-            "right; reindex_like against a template. Non-trivial = request differs from the axis; distinct = canonical JSON")
-    assumptions = ["labels unique, NaN-free, one kind per axis; requested labels of the axis' kind family"]
+            "float/str stored inc/dec/shuffled (a share unsigned / int32 / float32), data float/int (a share float32 / int32 / "
+            "bool / object / str, Fortran order); new label sequences subset/superset/disjoint/permuted/repeated/"
+            "empty/same/mixed (a share a hair away from a stored label) given as list, ndarray or Axis (a share of narrow "
+            "dtype); fills nan / 7 / 2.5 / -1 / 0 / inf / 2**40+1 / np.float32 / np.int16 / True / str / None; raise_error; "
+            "method None/left/right; reindex_like against an Axes or DimArray template with any fill. Every case is "
+            "decided twice: against the Lean mirror, and by a Python oracle written from the statement (labels, slices, "
+            "fill, promotion, searchsorted neighbour). Non-trivial = request differs from the axis; distinct = canonical JSON")
+    assumptions = ["labels unique, NaN-free, one kind per axis; requested labels of the axis' kind family",
+                   "open defects left out of the stream: float32 axis asked for non-float32 labels, str ('U') data with the str fill, "
+                   "narrow data dtype with the fill 2**40+1 (all: value cut to the narrower dtype of the same kind)",
+                   "raise_error=True together with method=: an error is accepted, the statement does not say when it is due"]
 
     def mirrors(self):
         import sys as _s
@@ -64,6 +77,10 @@ class C07(Prop):
     def gen_case(self, rng, tier):
         rank = rng.choice([1, 1, 2, 2, 3])
         arr = gen.rand_array(rng, rank=rank, maxn=4, minn=1 if rng.random() < 0.93 else 0)
+        if rng.random() < 0.2:
+            arr["vkind"] = rng.choice(["b", "O", "U"])      # bool / object / str data: a fill makes it an object array
+        if rng.random() < 0.3:
+            gen.dtype_variants(rng, arr, p=0.5)             # unsigned / narrow labels, float32 / int32 data, Fortran order
         for ax in arr["axes"]:
             if rng.random() < 0.3:
                 ax["attrs_py"] = {"units": "u_" + ax["name"]}
@@ -80,7 +97,14 @@ class C07(Prop):
                 v = Fraction(newl[k][1], newl[k][2]) + Fraction(1, 2)
                 if ["n", v.numerator, v.denominator] not in newl:
                     newl[k] = ["n", v.numerator, v.denominator]
-        fill = rng.choice(["nan", "nan", "int", "float"])
+        if ax["kind"] == "f" and newl and rng.random() < 0.06:
+            # a request a hair (2**-30) away from a stored label: another label, hence absent
+            k = rng.randrange(len(newl))
+            v = Fraction(newl[k][1], newl[k][2]) + rng.choice([1, -1]) * Fraction(1, 2 ** 30)
+            if ["n", v.numerator, v.denominator] not in L_of(ax) + newl:
+                newl[k] = ["n", v.numerator, v.denominator]
+                how = how + "+hair"
+        fill = rng.choice(FILL_PICK)
         frac_req = any(l[0] == "n" and l[2] != 1 for l in newl) and ax["kind"] == "i"
         c = {"op": "reindex", "array": arr, "axis": ["name", ax["name"]] if rng.random() < 0.5 else ["pos", d if rng.random() < 0.7 else d - rank],
              "labels": newl, "newkind": newkind, "as": rng.choice(["list", "ndarray", "Axis"]),
@@ -90,11 +114,20 @@ class C07(Prop):
              "_how": how}
         if c["as"] == "Axis":
             c["axis"] = ["name", ax["name"]]
+        if c["as"] != "list" and newkind in "if" and rng.random() < 0.2:
+            c["req_ldtype"] = rng.choice(["uint8", "int32", "uint64"] if newkind == "i" else ["float32"])
+        if ax["kind"] == "O" and c["as"] == "list" and newl and rng.random() < 0.5:
+            c["as"] = "pylist"      # a plain Python list of str (NumPy makes it a 'U' array)
+        sanitize(c)
         return c
 
     def gen_like(self, rng):
         rank = rng.choice([1, 2, 3])
         arr = gen.rand_array(rng, rank=rank, maxn=4, minn=1)
+        if rng.random() < 0.2:
+            arr["vkind"] = rng.choice(["b", "O", "U"])
+        if rng.random() < 0.25:
+            gen.dtype_variants(rng, arr, p=0.5)
         tmpl = []
         for ax in arr["axes"]:
             if rng.random() < 0.7:
@@ -104,8 +137,12 @@ class C07(Prop):
         if extra and rng.random() < 0.5:
             tmpl.append(gen.rand_axis(rng, extra[0], maxn=3, minn=1))
         rng.shuffle(tmpl)
-        return {"op": "reindex_like", "array": arr, "template": [gen.clean(t) for t in tmpl], "fill": "nan",
-                "raise": rng.random() < 0.3, "method": rng.choice([None, None, None, "left", "right"]), "_how": "like"}
+        c = {"op": "reindex_like", "array": arr, "template": [gen.clean(t) for t in tmpl],
+             "fill": rng.choice(["nan", "nan"] + FILL_PICK),
+             "raise": rng.random() < 0.3, "method": rng.choice([None, None, None, "left", "right"]), "_how": "like",
+             "template_as": rng.choice(["Axes", "DimArray", "DimArray"])}
+        sanitize(c)
+        return c
 
     def exhaustive(self):
         """axes of length <= 3 and requests of length <= 3 from a 5-label universe, all orders"""
@@ -119,6 +156,17 @@ class C07(Prop):
                             yield {"op": "reindex", "array": {"axes": [{"name": "x", "kind": kind, "labels": [gen.enc(v) for v in L]}], "vkind": "f"},
                                    "axis": ["pos", 0], "labels": [gen.enc(v) for v in R], "newkind": kind, "as": "list",
                                    "fill": "nan", "raise": False, "method": None, "_how": "exh"}
+        # method='left' / 'right': every axis of length <= 3 in every stored order against every request of length <= 2
+        # from a universe that has labels below, between and beyond those of the axis (decided by the Python oracle)
+        for kind, uni in (("i", [0, 1, 2, 3, 4, 5]), ("O", ["a", "b", "c", "d", "e", "f"])):
+            for n in range(1, 4):
+                for L in itertools.permutations(uni[1:5], n):
+                    for m in range(1, 3):
+                        for R in itertools.product(uni, repeat=m):
+                            for method in ("left", "right"):
+                                yield {"op": "reindex", "array": {"axes": [{"name": "x", "kind": kind, "labels": [gen.enc(v) for v in L]}], "vkind": "f"},
+                                       "axis": ["pos", 0], "labels": [gen.enc(v) for v in R], "newkind": kind, "as": "ndarray",
+                                       "fill": "nan", "raise": False, "method": method, "_how": "exh_method"}
 
     def gen(self, rng, tier):
         n = 1200 if tier == "quick" else 30000
@@ -130,7 +178,7 @@ class C07(Prop):
 
     # ------------------------------------------------------------------
     def impl(self, c):
-        a = core.build_array(c["array"], 0)
+        a = build_arr(c["array"], 0)
         toks = core.AttrTokens()
         self._toks = toks
         before = core.obs_array(a)
@@ -139,7 +187,11 @@ class C07(Prop):
         def run():
             if c["op"] == "reindex_like":
                 tmpl = Axes_from(c["template"])
+                if c.get("template_as") == "DimArray":
+                    tmpl = core.DimArray(np.zeros(tuple(ax.size for ax in tmpl)), axes=list(tmpl))
                 kw = {}
+                if c["fill"] != "nan":
+                    kw["fill_value"] = fillv
                 if c["raise"]:
                     kw["raise_error"] = True
                 if c["method"]:
@@ -148,14 +200,16 @@ class C07(Prop):
             d = c["axis"][1]
             axd = axis_of(c)
             vals = [core.dec_label(l, c["newkind"]) for l in c["labels"]]
-            if c["as"] == "list":
+            if c["as"] == "pylist":
+                req = list(vals)
+            elif c["as"] == "list":
                 req = vals
                 if c["newkind"] == "O" or not vals:
                     req = core.label_array(c["labels"], c["newkind"])   # np.asarray(list of str) would be 'U'; keep object
             elif c["as"] == "ndarray":
-                req = core.label_array(c["labels"], c["newkind"])
+                req = core.label_array(c["labels"], c["newkind"], c.get("req_ldtype"))
             else:
-                req = Axis(core.label_array(c["labels"], c["newkind"]), axd["name"])
+                req = Axis(core.label_array(c["labels"], c["newkind"], c.get("req_ldtype")), axd["name"])
             kw = {}
             if c["fill"] != "nan":
                 kw["fill_value"] = fillv
@@ -169,6 +223,7 @@ class C07(Prop):
         out = core.guarded(run)
         if core.obs_array(a) != before:
             out["operand_modified"] = True
+        out["input"] = before
         return out
 
     def request(self, c):
@@ -176,12 +231,12 @@ class C07(Prop):
         arr = core.lean_array(gen.clean(c["array"]), toks)
         if c["op"] == "reindex_like":
             return {"op": "reindex_like", "arrays": [arr], "template": [core.lean_axis(t, None) for t in c["template"]],
-                    "fillkind": "f", "raise": c["raise"], "method": c["method"]}
+                    "fillkind": FILLS[c["fill"]][1], "raise": c["raise"], "method": c["method"]}
         return {"op": "reindex", "arrays": [arr], "axis": c["axis"], "labels": c["labels"], "newkind": c["newkind"],
                 "fillkind": FILLS[c["fill"]][1], "raise": c["raise"], "method": c["method"]}
 
     def judge(self, c, io, ans):
-        a = core.build_array(c["array"], 0)
+        a = build_arr(c["array"], 0)
         fillv, fk = FILLS[c["fill"]]
         env = core.CellEnv([a.values], fill=fillv)
         toks = core.AttrTokens()
@@ -194,8 +249,14 @@ class C07(Prop):
         # impl attrs tokens were numbered by a different AttrTokens: re-encode through values
         io2 = io
         bad = core.diff_obs(io2, lean)
+        if "axes.kind" in bad and unsigned_labels(c):
+            # the mirror knows unsigned labels as integers; the implementation's widening of the label kind
+            # (_maybe_cast_type: u <- i and i <- u give object) is then not the mirror's
+            bad.remove("axes.kind")
         if io.get("operand_modified"):
             bad.append("operand_modified")
+        # the statement itself, decided in Python from the input and the request alone
+        bad += [b for b in oracle(c, io) if b not in bad]
         # the property itself (spec): labels are the request, values per the definitional rule
         spec = ans.get("spec")
         if spec and "ok" in io and c["method"] is None and c["op"] == "reindex":
@@ -212,7 +273,8 @@ class C07(Prop):
             mm["lean"] = lean if "err" in lean else {k: lean["ok"][k] for k in ("dims", "shape", "values", "vkind")}
         return mm
 
-    P_OBS = Prop.P_OBS + ("operand_modified", "spec.labels", "spec.values", "vkind")
+    P_OBS = Prop.P_OBS + ("operand_modified", "spec.labels", "spec.values", "vkind", "text.outcome", "text.dims", "text.labels",
+                          "text.other_axes", "text.values", "text.fill", "text.promote")
     M_OBS = ("axes.kind",)
 
     def nontrivial(self, c):
@@ -221,7 +283,10 @@ class C07(Prop):
     def features(self, c, io):
         return {"outcome": "err:" + io["err"] if "err" in io else "ok", "how": c.get("_how"), "op": c["op"],
                 "rank": len(c["array"]["axes"]), "fill": c["fill"], "method": c["method"], "raise": c["raise"],
-                "as": c.get("as"), "vkind": c["array"].get("vkind")}
+                "as": c.get("as"), "vkind": c["array"].get("vkind"), "template_as": c.get("template_as"),
+                "vdtype": c["array"].get("vdtype"), "req_ldtype": c.get("req_ldtype"),
+                "ldtype": ",".join(sorted(set(ax["ldtype"] for ax in c["array"]["axes"] if ax.get("ldtype")))) or None,
+                "memory": c["array"].get("order", "C")}
 
     def size(self, c):
         return sum(len(ax["labels"]) for ax in c["array"]["axes"]) * 10 + len(str(c.get("labels", c.get("template"))))
@@ -229,6 +294,121 @@ class C07(Prop):
     def snippet(self, c):
         return ("import sys; sys.path.insert(0, '/verif/harness'); import json, core; from props.c07 import PROP; "
                 "case = json.load(open(REPLAY))['case']; print(PROP.impl(case))")
+
+
+def L_of(ax):
+    return [list(l) for l in ax["labels"]]
+
+
+def unsigned_labels(c):
+    return (any(ax.get("ldtype", "").startswith("uint") for ax in c["array"]["axes"])
+            or str(c.get("req_ldtype", "")).startswith("uint"))
+
+
+def sanitize(c):
+    """forms left out for now because the library violates the statement on them (see the TODO(defect) notes)"""
+    arr = c["array"]
+    # TODO(defect): put(..., cast=True) / _maybe_cast_type look at the dtype KIND only: a fill value that the data's
+    # narrower dtype of the same kind cannot hold is rounded (float32 data, fill 2**40+1 -> 2**40) or refused by NumPy
+    # (int32 data: OverflowError) instead of widening the data.  Narrow data dtypes meet small fill values only.
+    if c["fill"] == "big" and arr.get("vdtype"):
+        del arr["vdtype"]
+    # TODO(defect): same root for str data: a 'U<n>' array filled with a longer str keeps its item size and the fill
+    # value is cut ('missing' -> 'miss').  str data meets the str fill as an object array only.
+    if c["fill"] == "str" and arr.get("vkind") == "U":
+        arr["vkind"] = "O"
+    # TODO(defect): and for the labels: `newobj.axes[axis][mask] = values[mask]` writes the requested labels into the
+    # float32 label array of the input, rounding them to single precision: the axis of the result is then not the
+    # requested one.  A float32 axis is asked for float32 numbers only.
+    if c["op"] == "reindex":
+        ax = axis_of(c)
+        if ax.get("ldtype") == "float32" and any(l[0] == "n" and not f32_exact(l) for l in c["labels"]):
+            del ax["ldtype"]
+    return c
+
+
+def source_label(axis_labels, v, method):
+    """key of the original label whose slice the requested label `v` must show; None = the fill value.
+    method None: the label itself when the axis has it.  method 'left' / 'right': "the neighbouring label in sorted
+    order as numpy.searchsorted would": position searchsorted(sorted labels, v, side=method), clipped to the last"""
+    keys = [lab_key(l) for l in axis_labels]
+    k = lab_key(v)
+    if method is None:
+        return k if k in keys else None
+    srt = sorted(keys)
+    p = bisect.bisect_left(srt, k) if method == "left" else bisect.bisect_right(srt, k)
+    return srt[min(p, len(srt) - 1)]
+
+
+def num(v):
+    """canonical value with booleans read as numbers (True == 1): equality of VALUES, not of dtypes"""
+    return ["n", int(v[1]), 1] if v and v[0] == "b" else v
+
+
+def oracle(c, io):
+    """C07 as stated, on what the implementation returned"""
+    inp = io["input"]
+    if c["op"] == "reindex":
+        plan = {inp["dims"][axis_pos(c)]: c["labels"]}
+    else:
+        plan = {}
+        for t in c["template"]:
+            if t["name"] in inp["dims"] and t["name"] not in plan:
+                plan[t["name"]] = t["labels"]
+    in_keys = {ax["name"]: [lab_key(l) for l in ax["labels"]] for ax in inp["axes"]}
+    for d, req in plan.items():
+        if not in_keys[d] and req:
+            return []           # K05 (open): nothing can be taken from an empty axis
+    src = {}
+    for ax in inp["axes"]:
+        d = ax["name"]
+        if d in plan:
+            src[d] = [source_label(ax["labels"], v, c["method"]) for v in plan[d]]
+        else:
+            src[d] = list(in_keys[d])
+    absent = any(lab_key(v) not in in_keys[d] for d, req in plan.items() for v in req)
+    if c["raise"] and c["method"] is not None and "err" in io:
+        return []               # raise_error together with method=: the statement does not say when that raises
+    if c["raise"] and absent and c["method"] is None:
+        return [] if "err" in io else ["text.outcome"]
+    if "err" in io:
+        return ["text.outcome"]
+    out = io["ok"]
+    bad = []
+    if out["dims"] != inp["dims"]:
+        return ["text.dims"]
+    for ax_in, ax_out in zip(inp["axes"], out["axes"]):
+        d = ax_in["name"]
+        got = [lab_key(l) for l in ax_out["labels"]]
+        if d in plan:
+            if got != [lab_key(l) for l in plan[d]]:
+                bad.append("text.labels")
+        elif got != in_keys[d] or ax_out["name"] != d:
+            bad.append("text.other_axes")
+    if bad:
+        return sorted(set(bad))
+    fill = num(core.canon_value(FILLS[c["fill"]][0]))
+    filled = False
+    dims = inp["dims"]
+    shape_in = inp["shape"]
+    for flat, pos in enumerate(itertools.product(*[range(len(src[d])) for d in dims])):
+        keys = [src[d][p] for d, p in zip(dims, pos)]
+        got = num(out["values"][flat])
+        if any(k is None for k in keys):
+            filled = True
+            if got != fill:
+                bad.append("text.fill")
+        else:
+            i = 0
+            for d, k, n in zip(dims, keys, shape_in):
+                i = i * n + in_keys[d].index(k)
+            if got != num(inp["values"][i]):
+                bad.append("text.values")
+    if len(out["values"]) != int(np.prod([len(src[d]) for d in dims])):
+        bad.append("text.values")
+    if filled and c["fill"] == "nan" and inp["vkind"] == "i" and out["vkind"] != "f":
+        bad.append("text.promote")      # "NaN by default, promoting integer data to float"
+    return sorted(set(bad))
 
 
 def axis_pos(c):
